@@ -83,20 +83,32 @@ theorem insBefore_eq_insB (r n : NodeId) : ∀ (l : List NodeId), insBefore r n 
 
 /-! ### `insertBefore` on a duplicate-free child list -/
 
-theorem mem_insertBefore {kids : List NodeId} {n a : NodeId} {ref : Option NodeId} :
-    a ∈ insertBefore kids n ref ↔ a = n ∨ a ∈ kids := by
-  unfold insertBefore
+theorem insertBefore_of_mem {kids : List NodeId} {n r : NodeId} (h : r ∈ kids) :
+    insertBefore kids n (some r) = insB r n (kids.erase n) := by
+  simp [insertBefore, h, insBefore_eq_insB]
+
+/-- a reference that is not a child: nothing happens (`NotFoundError`) -/
+theorem insertBefore_of_not_mem {kids : List NodeId} {n r : NodeId} (h : r ∉ kids) :
+    insertBefore kids n (some r) = kids := by
+  simp [insertBefore, h]
+
+theorem mem_insertBefore {kids : List NodeId} {n a : NodeId} {ref : Option NodeId}
+    (h : a ∈ insertBefore kids n ref) : a = n ∨ a ∈ kids := by
+  unfold insertBefore at h
   cases ref with
   | none =>
-    simp only [List.mem_append, List.mem_singleton]
-    by_cases h : a = n
-    · simp [h]
-    · simp [h, List.mem_erase_of_ne h]
+    simp only [List.mem_append, List.mem_singleton] at h
+    rcases h with h | h
+    · exact Or.inr (List.mem_of_mem_erase h)
+    · exact Or.inl h
   | some r =>
-    simp only [insBefore_eq_insB, mem_insB]
-    by_cases h : a = n
-    · simp [h]
-    · simp [h, List.mem_erase_of_ne h]
+    simp only at h
+    split at h
+    · rw [insBefore_eq_insB, mem_insB] at h
+      rcases h with h | h
+      · exact Or.inl h
+      · exact Or.inr (List.mem_of_mem_erase h)
+    · exact Or.inr h
 
 theorem nodup_insertBefore {kids : List NodeId} (n : NodeId) (ref : Option NodeId) (h : kids.Nodup) :
     (insertBefore kids n ref).Nodup := by
@@ -109,20 +121,25 @@ theorem nodup_insertBefore {kids : List NodeId} (n : NodeId) (ref : Option NodeI
     rw [List.nodup_append]
     exact ⟨h1, by simp, by intro a ha b hb; simp at hb; subst hb; rintro rfl; exact h2 ha⟩
   | some r =>
-    simp only [insBefore_eq_insB]
-    exact nodup_insB h1 h2
+    simp only
+    split
+    · rw [insBefore_eq_insB]
+      exact nodup_insB h1 h2
+    · exact h
 
-theorem mem_mountItem {kids : List NodeId} {it : Item} {ref : Option NodeId} {a : NodeId} :
-    a ∈ mountItem kids it ref ↔ a ∈ it.nodes ∨ a ∈ kids := by
-  unfold mountItem
-  generalize it.nodes = b
+theorem mem_mountItem {kids : List NodeId} {it : Item} {ref : Option NodeId} {a : NodeId}
+    (h : a ∈ mountItem kids it ref) : a ∈ it.nodes ∨ a ∈ kids := by
+  unfold mountItem at h
+  generalize it.nodes = b at h
   induction b generalizing kids with
-  | nil => simp
+  | nil => exact Or.inr (by simpa using h)
   | cons n b ih =>
-    simp only [List.foldl_cons, ih, mem_insertBefore, List.mem_cons]
-    constructor
-    · rintro (h | h | h) <;> simp [h]
-    · rintro ((h | h) | h) <;> simp [h]
+    simp only [List.foldl_cons] at h
+    rcases ih h with h1 | h1
+    · exact Or.inl (by simp [h1])
+    · rcases mem_insertBefore h1 with h2 | h2
+      · exact Or.inl (by simp [h2])
+      · exact Or.inr h2
 
 theorem nodup_mountItem {kids : List NodeId} (it : Item) (ref : Option NodeId) (h : kids.Nodup) :
     (mountItem kids it ref).Nodup := by
@@ -153,8 +170,10 @@ theorem mount_block (ref : NodeId) (A B : List NodeId) : ∀ (b cur : List NodeI
       exact hnd.2.2 ref hm ref (by simp) rfl
     have hstep : (insertBefore cur n (some ref)).filter (fun a => !b.contains a)
         = (A ++ [n]) ++ ref :: B := by
-      unfold insertBefore
-      simp only [insBefore_eq_insB]
+      have href : ref ∈ cur := by
+        have : ref ∈ cur.filter (fun a => !(n :: b).contains a) := by rw [h]; simp
+        exact (List.mem_filter.mp this).1
+      rw [insertBefore_of_mem href]
       rw [filter_insB _ (by simpa using hb.1) (by
         intro _
         simpa using hr.2)]
